@@ -462,7 +462,11 @@ def run_instance(module, inst, tier, seed, concrete=None, refine=None):
             if alts == [[]]:
                 m2 = model
             else:
-                res["unrealised"].append("%s %s: %s under the real-environment constraints" % (kind, sig, r))
+                try:
+                    av, af = model_to_inputs(ctx, model) if model is not None else ({}, {})
+                except Exception:  # noqa: BLE001
+                    av, af = {}, {}
+                res["unrealised"].append("%s %s: %s under the real-environment constraints; abstract model %s %s" % (kind, sig, r, json.dumps(av)[:300], json.dumps(af)[:300]))
                 return
         vals, funcs = model_to_inputs(ctx, m2)
         out = concrete.call(conc_req(vals, funcs, True))
